@@ -313,6 +313,7 @@ type Machine struct {
 }
 
 type lockState struct {
+	owner   int // thread id of the writer
 	held    int // 0 free, 1 locked, for RW: -n readers
 	name    string
 	holders []string
@@ -890,6 +891,7 @@ func (e *Explorer) Run(fn *ssa.Function) (complete bool) {
 }
 
 func (e *Explorer) runPath(m *Machine, fn *ssa.Function) {
+	defer m.schedKill()
 	defer func() {
 		r := recover()
 		if r == nil {
